@@ -1,0 +1,17 @@
+//go:build verif
+// +build verif
+
+/*
+Copyright SecureKey Technologies Inc. All Rights Reserved.
+
+SPDX-License-Identifier: Apache-2.0
+*/
+
+package batch
+
+// VerifProcessAvailable exposes one processing step of the batch writer (a monitor tick when force is false,
+// a batch timeout tick when force is true) so that a verification harness can choose the schedule.
+// It is only compiled with the 'verif' build tag.
+func (r *Writer) VerifProcessAvailable(force bool) uint {
+	return r.processAvailable(force)
+}
